@@ -1,7 +1,8 @@
 """C01 — Transpiled C++ behaves like the Python source.
 
 Theorems: lean/Tranp/Props/C01.lean over lean/Tranp/Model/Emit.lean (+ Generated/CppTemplates.lean from translate/gen_cpp_templates.py).
-Tie: correspondence stream `emit` (random operator trees, every ordered operator pair x side forced, real Py2Cpp `return` text vs model tokens).
+Tie: correspondence streams `emit` (random operator trees, every ordered operator pair x side forced, real Py2Cpp `return` text vs model tokens),
+`cpptable` (g++ grouping), `sem` (CPython / g++ values on ints, bools, floats), `stmt` (statements core: real body lines, CPython, g++).
 Search (the property's own oracle, no model): harness/gen_prog.py programs -> real transpile -> g++ -std=c++20 -> run -> CPython (harness/cxx.py).
 """
 from __future__ import annotations
@@ -532,7 +533,7 @@ def emit_cases(tr: cxx.Transpiler, items: list[tuple[str, OT]]) -> list[tuple[di
 			out.append((desc, ['emit\ta 0 -'], [f'real-code exception {common.exc_enum(e)}: {str(e)[:200]}']))
 			continue
 		core = not _has(t, lambda n: n.kind == 'tern' or (n.kind == 'bin' and n.op in ('in', 'not in'))) and 'fmod(' not in real_text
-		desc.update(enc=enc, text=real_text, core=core)
+		desc.update(enc=enc, text=real_text, core=core, noin=not _has(t, lambda n: n.kind == 'bin' and n.op in ('in', 'not in')))
 		ops = [f'emit\t{enc}', f'toks\t{enc}', f'wf\t{enc}', f'pytree\t{enc}']
 		real = ['ok ' + hx(real_text), 'ok ' + ' '.join(cpp_tokens(real_text)), 'true', ('ok ' + cpython_grouping(t.src())) if core else 'none']
 		out.append((desc, ops, real))
@@ -604,63 +605,80 @@ def stream_cpptable(ctx: Ctx, emit_cases_done: list[tuple[dict[str, Any], list[s
 
 	with ThreadPoolExecutor(8) as ex:
 		reals = [r for chunk_res in ex.map(build, list(enumerate(chunks))) for r in chunk_res]
-	cases = [({'expr': d['expr'], 'text': d['text']}, [f"reparse\t{d['enc']}"], [r]) for d, r in zip(todo, reals)]
+	cases = [({'expr': d['expr'], 'text': d['text']}, [f"reparse\t{d['enc']}", f"parsew\t{d['enc']}"], [r, r]) for d, r in zip(todo, reals)]
 	st = common.correspond('cpptable', cases, 'emit', classify=lambda d: 'regrouped-or-flat')
-	st.note = 'g++ -std=c++20 prints its grouping of every emitted core text (operator overloading on a string type); the model prints Prec.parse cppOps (emit n)'
+	st.note = ('g++ -std=c++20 prints its grouping of every emitted core text (operator overloading on a string type); the model prints Prec.parse cppOps (emit n) and the wrapper grammar\'s parseX (toksW n), which must coincide on the core; '
+		'ternary / call forms of the wrapper grammar are validated by value in stream sem (g++ evaluating the real text)')
 	return st
 
 
 def stream_sem(ctx: Ctx, emit_cases_done: list[tuple[dict[str, Any], list[str], list[str]]]) -> Stream:
-	"""validates the two trusted transcriptions of theorem `sem`: `denotePy` against CPython (the instrumented evaluation that
-	defines the agreement subset) and `denoteCpp ∘ Prec.parse cppOps` against g++ running the real emitted text under UBSan."""
+	"""validates the trusted transcriptions of `sem_full`: `pyEval` (ints, bools, floats, ternary) against CPython (the instrumented
+	evaluation that defines the agreement subset) and `cEvalX ∘ parseX` (wrapper grammar over Prec) against g++ running the real
+	emitted text under UBSan (float variables are `double` on both sides: Lean's Float is binary64)."""
 	import subprocess
 	from concurrent.futures import ThreadPoolExecutor
+	from translate.gen_cpp_templates import cpp_tokens
 	rng = ctx.sub_rng('sem')
-	int_names, bool_names = ['a', 'b', 'c'], ['p', 'q']
+	int_names, bool_names, flt_names = ['a', 'b', 'c'], ['p', 'q'], ['x', 'y']
+	names = int_names + bool_names + flt_names
 	todo = []
 	for d, _, _ in emit_cases_done:
-		if 'enc' not in d:
+		if 'enc' not in d or not d.get('noin'):
 			continue
 		atoms = dict(re.findall(r'a ([0-9]+) ([0-9a-f]+)', d['enc']))
 		texts = {int(i): common.unhx(h) for i, h in atoms.items()}
-		if all(t in int_names + bool_names + ['true', 'false'] or re.fullmatch(r'[0-9]+', t) for t in texts.values()) and ' float ' not in d['enc'] and ' other ' not in d['enc']:
+		if all(t in names + ['true', 'false'] or re.fullmatch(r'[0-9]+(\.[0-9]+)?', t) for t in texts.values()) and ' other ' not in d['enc']:
 			todo.append((d, texts))
 	rng.shuffle(todo)
-	todo = todo[:ctx.scale(250, 1200)]
+	todo = todo[:ctx.scale(300, 1500)]
 	work = ctx.tmpdir('tranp-verif-sem-')
 	cases_in = []
 	for d, texts in todo:
 		small = rng.random() < 0.6
 		vals: dict[str, Any] = {n: (rng.randint(0, 9) if small else rng.choice([0, 1, -1, 7, -8, 31, 33, 1000, -65536, 2 ** 30, -(2 ** 31), 2 ** 31 - 1, rng.randint(-50, 50)])) for n in int_names}
 		vals.update({n: rng.random() < 0.5 for n in bool_names})
+		vals.update({n: rng.randint(-32 if not small else 0, 32) / 4.0 for n in flt_names})
 		env = []
 		for i, t in texts.items():
-			v = vals[t] if t in vals else (True if t == 'true' else False if t == 'false' else int(t))
-			env.append(f"{i}:{'b' + str(int(v)) if isinstance(v, bool) else 'i' + str(v)}")
+			v = vals[t] if t in vals else (True if t == 'true' else False if t == 'false' else float(t) if '.' in t else int(t))
+			env.append(f"{i}:{'b' + str(int(v)) if isinstance(v, bool) else 'f' + str(int(v * 4096)) if isinstance(v, float) else 'i' + str(v)}")
 		cases_in.append((d, vals, ' '.join(env)))
 	# CPython side
-	py_real = []
+	py_real: list[str | None] = []
 	for d, vals, _ in cases_in:
-		prog = {'source': f"def f(a: int, b: int, c: int, p: bool, q: bool) -> int:\n\treturn {d['expr']}\n",
-			'entries': [{'fn': 'f', 'params': ['int', 'int', 'int', 'bool', 'bool'], 'ret': 'int', 'args': [[vals[n] for n in int_names + bool_names]]}], 'classes': {}}
+		prog = {'source': f"def f(a: int, b: int, c: int, p: bool, q: bool, x: float, y: float) -> int:\n\treturn {d['expr']}\n",
+			'entries': [{'fn': 'f', 'params': ['int', 'int', 'int', 'bool', 'bool', 'float', 'float'], 'ret': 'int', 'args': [[vals[n] for n in names]]}], 'classes': {}}
 		r = cxx.run_python(prog)[('f', 0)]
-		py_real.append('out' if r.startswith('out:') or r == 'raised' else ('ok b:1' if r == 'True' else 'ok b:0' if r == 'False' else f'ok i:{r}'))
-	# g++ side (core texts only): one function per case, one process per evaluation (UBSan aborts at the first undefined operation)
-	from translate.gen_cpp_templates import cpp_tokens
-	fused_ix = {k for k, (d, _, _) in enumerate(cases_in) if d.get('core') and {'--', '++'} & set(cpp_tokens(d['text']))}
-	core_ix = [k for k, (d, _, _) in enumerate(cases_in) if d.get('core') and k not in fused_ix]
+		if r.startswith('out:') and 'exactly representable' in r:
+			py_real.append(None)   # the search's float domain (binary32-exact) is narrower than the model's abstract floats: not comparable
+		elif r.startswith('out:') or r == 'raised':
+			py_real.append('out')
+		elif r in ('True', 'False'):
+			py_real.append('ok b:1' if r == 'True' else 'ok b:0')
+		elif r.endswith('f'):
+			py_real.append(f'ok f:{int(float(r[:-1]) * 4096)}')
+		else:
+			py_real.append(f'ok i:{r}')
+	# where the model reports a tag mismatch (the emitter's `%` template choice, finding fmod:left-type) there is no Python-subset claim
+	model_py = common.lean_driver('emit', [f"evalpy\t{env}\t{d['enc']}" for d, _, env in cases_in])
+	tag_ix = {k for k, m in enumerate(model_py) if m == 'tagmismatch'}
+	fused_ix = {k for k, (d, _, _) in enumerate(cases_in) if {'--', '++'} & set(cpp_tokens(d['text']))}
+	core_ix = [k for k in range(len(cases_in)) if k not in fused_ix]
 	# where the model says the C++ evaluation is undefined there is nothing to observe (g++ folds `c - 2 || false` to `c != 2`
 	# before UBSan sees the overflow): those evaluations are skipped, and counted
 	model_cpp = dict(zip(core_ix, common.lean_driver('emit', [f"evalcpp\t{cases_in[k][2]}\t{cases_in[k][0]['enc']}" for k in core_ix])))
 	ub_ix = {k for k in core_ix if model_cpp[k] == 'ub'}
 	core_ix = [k for k in core_ix if k not in ub_ix]
-	src = ['#include <cstdio>', '#include <cstdlib>']
+	src = ['#include <cstdio>', '#include <cstdlib>', '#include <cmath>',
+		'static void show(bool v) { printf("%d\\n", v ? 1 : 0); }', 'static void show(int v) { printf("%d\\n", v); }', 'static void show(long v) { printf("%ld\\n", v); }',
+		'static void show(double v) { if (!std::isfinite(v)) printf("f:nonfinite\\n"); else printf("f:%lld\\n", (long long)(v * 4096.0)); }']
 	for k in core_ix:
-		src.append(f"static int f{k}(int a, int b, int c, bool p, bool q) {{ return {cases_in[k][0]['text']}; }}")
+		src.append(f"static void f{k}(int a, int b, int c, bool p, bool q, double x, double y) {{ show({cases_in[k][0]['text']}); }}")
 	src.append('int main(int argc, char** argv) { int k = atoi(argv[1]); switch (k) {')
 	for k in core_ix:
 		v = cases_in[k][1]
-		src.append(f"\tcase {k}: printf(\"%d\\n\", f{k}({v['a']}, {v['b']}, {v['c']}, {'true' if v['p'] else 'false'}, {'true' if v['q'] else 'false'})); break;")
+		src.append(f"\tcase {k}: f{k}({v['a']}, {v['b']}, {v['c']}, {'true' if v['p'] else 'false'}, {'true' if v['q'] else 'false'}, {v['x']!r}, {v['y']!r}); break;")
 	src.append('} return 0; }')
 	path = os.path.join(work, 'sem.cpp')
 	with open(path, 'w', encoding='utf-8') as f:
@@ -680,16 +698,285 @@ def stream_sem(ctx: Ctx, emit_cases_done: list[tuple[dict[str, Any], list[str], 
 	cpp_real.update({k: 'ub' for k in ub_ix})
 	cases = []
 	for k, (d, vals, env) in enumerate(cases_in):
-		ops, real = [f"evalpy\t{env}\t{d['enc']}"], [py_real[k]]
+		ops, real = [], []
+		if py_real[k] is not None and k not in tag_ix:
+			ops.append(f"evalpy\t{env}\t{d['enc']}")
+			real.append(py_real[k])
 		if k in cpp_real:
 			ops.append(f"evalcpp\t{env}\t{d['enc']}")
 			real.append(cpp_real[k])
-		cases.append(({'expr': d['expr'], 'text': d['text'], 'vals': vals, 'py': py_real[k], 'cpp': cpp_real.get(k)}, ops, real))
-	st = common.correspond('sem', cases, 'emit', classify=lambda d: f"py:{d['py'][:2]}/cpp:{(d['cpp'] or 'n/a')[:2]}")
+		if ops:
+			cases.append(({'expr': d['expr'], 'text': d['text'], 'vals': vals, 'py': py_real[k] or 'n/a', 'cpp': cpp_real.get(k)}, ops, real))
+	st = common.correspond('sem', cases, 'emit', classify=lambda d: f"py:{d['py'][:4]}/cpp:{(d['cpp'] or 'n/a')[:4]}")
 	st.histogram['cpp-undefined-skipped'] = len(ub_ix)
 	st.histogram['cpp-fused-sign'] = len(fused_ix)
-	st.note = ('int/bool operator expressions of stream emit evaluated on random environments: denotePy vs CPython (instrumented = the subset checks), '
-		'denoteCpp(Prec.parse cppOps (emit n)) vs g++ -std=c++20 -fsanitize=undefined running the real emitted text')
+	st.histogram['py-tagmismatch-skipped'] = len(tag_ix)
+	st.histogram['py-inexact-float-skipped'] = sum(1 for r in py_real if r is None)
+	st.note = ('int/bool/float operator expressions incl. ternary of stream emit evaluated on random environments: pyEval vs CPython (instrumented = the subset checks), '
+		'cEvalX(parseX (emit n)) vs g++ -std=c++20 -fsanitize=undefined running the real emitted text (floats as double on both sides)')
+	return st
+
+
+class StmtGen:
+	"""core programs: `v = e`, `return e`, `if/elif/else`, `while` over int/bool operator expressions. Reads only names that are
+	visible in the C++ block structure (the hypothesis `scopeOK` of C01.stmt_agree); assignment targets vary between visible
+	names (plain assignment), fresh names (declaration), names declared in an already closed block (declared again: what
+	`VarsCollector._merged` decides) and parameters. Loops are bounded by a dedicated counter."""
+
+	POOL = ['s', 't', 'u', 'v', 'w', 'n', 'm']
+	INT_OPS = ['+', '-', '*', '%', '&', '|', '^', '<<', '>>']
+
+	def __init__(self, rng: random.Random) -> None:
+		self.rng = rng
+		self.vis: list[list[str]] = [['a', 'b', 'c']]
+		self.closed: list[str] = []
+		self.counters = 0
+		self.shape: Counter[str] = Counter()
+
+	def visible(self) -> list[str]:
+		return [n for f in self.vis for n in f]
+
+	def int_expr(self, depth: int) -> str:
+		r = self.rng
+		if depth <= 0 or r.random() < 0.3:
+			return r.choice(self.visible()) if r.random() < 0.7 else str(r.randint(0, 9))
+		k = r.random()
+		if k < 0.12:
+			return '-' + self.int_atomish(depth - 1)
+		if k < 0.24:
+			return '(' + self.int_expr(depth - 1) + ')'
+		op = r.choice(self.INT_OPS)
+		if op in ('<<', '>>') and r.random() < 0.8:
+			return f'{self.int_expr(depth - 1)} {op} {r.randint(0, 3)}'   # mostly inside the agreement subset (shift count 0..31)
+		return f'{self.int_expr(depth - 1)} {op} {self.int_expr(depth - 1)}'
+
+	def int_atomish(self, depth: int) -> str:
+		e = self.int_expr(depth)
+		return e if re.fullmatch(r'[a-z0-9]+', e) else f'({e})'
+
+	def bool_expr(self, depth: int) -> str:
+		r = self.rng
+		k = r.random()
+		if depth <= 0 or k < 0.5:
+			return f"{self.int_expr(min(depth, 1))} {r.choice(['<', '>', '<=', '>=', '==', '!='])} {self.int_expr(min(depth, 1))}"
+		if k < 0.65:
+			return f'not ({self.bool_expr(depth - 1)})'
+		if k < 0.75:
+			return f'not {self.bool_expr(0)}'
+		return f"{self.bool_expr(depth - 1)} {r.choice(['and', 'or'])} {self.bool_expr(depth - 1)}"
+
+	def target(self) -> str:
+		r = self.rng
+		k = r.random()
+		locals_vis = [n for n in self.visible() if n in self.POOL]
+		if k < 0.4 and locals_vis:
+			self.shape['assign:visible'] += 1
+			return r.choice(locals_vis)
+		if k < 0.65 and [n for n in self.closed if n not in self.visible()]:
+			self.shape['assign:redeclare-after-closed-block'] += 1
+			return r.choice([n for n in self.closed if n not in self.visible()])
+		if k < 0.72:
+			self.shape['assign:parameter'] += 1
+			return r.choice(['a', 'b', 'c'])
+		fresh = [n for n in self.POOL if n not in self.visible()]
+		if fresh:
+			self.shape['assign:fresh'] += 1
+			return r.choice(fresh)
+		self.shape['assign:visible'] += 1
+		return r.choice(locals_vis)
+
+	def block(self, depth: int, ind: int, n: int, tail: list[str] | None = None) -> list[str]:
+		self.vis.insert(0, []) if ind > 1 else None
+		out: list[str] = []
+		for _ in range(n):
+			out.extend(self.stmt(depth, ind))
+		for t in tail or []:
+			out.append('\t' * ind + t)
+		if ind > 1:
+			self.closed.extend(self.vis.pop(0))
+		return out
+
+	def stmt(self, depth: int, ind: int) -> list[str]:
+		r = self.rng
+		pre = '\t' * ind
+		k = r.random()
+		if depth <= 0 or k < 0.5:
+			e = self.int_expr(r.randint(0, 3))
+			v = self.target()
+			if v not in self.visible():
+				self.vis[0].append(v)
+			return [f'{pre}{v} = {e}']
+		if k < 0.58:
+			self.shape['return:nested' if ind > 1 else 'return:early'] += 1
+			return [f'{pre}return {self.int_expr(2)}']
+		if k < 0.85:
+			arms = r.choice([1, 1, 2, 3])
+			self.shape[f'if:{arms}-arm'] += 1
+			out = []
+			for i in range(arms):
+				out.append(f"{pre}{'if' if i == 0 else 'elif'} {self.bool_expr(2)}:")
+				out.extend(self.block(depth - 1, ind + 1, r.randint(1, 3)))
+			if r.random() < 0.5:
+				self.shape['if:else'] += 1
+				out.append(f'{pre}else:')
+				out.extend(self.block(depth - 1, ind + 1, r.randint(1, 3)))
+			return out
+		self.shape['while'] += 1
+		k_name = f'k{self.counters}'
+		self.counters += 1
+		self.vis[0].append(k_name)
+		cond = f'{k_name} < {r.randint(0, 4)}' + (f' and {self.bool_expr(1)}' if r.random() < 0.3 else '')
+		out = [f'{pre}{k_name} = 0', f'{pre}while {cond}:']
+		out.extend(self.block(depth - 1, ind + 1, r.randint(1, 3), tail=[f'{k_name} = {k_name} + 1']))
+		return out
+
+	def program(self) -> str:
+		body = self.block(self.rng.choice([1, 2, 2, 3]), 1, self.rng.randint(2, 5), tail=[f'return {self.int_expr(2)}'])
+		return 'def f(a: int, b: int, c: int) -> int:\n' + '\n'.join(body) + '\n'
+
+
+def stmt_encode(tr: cxx.Transpiler, source: str) -> tuple[str, list[str], dict[int, str], RealNodes]:
+	"""the statement tree tranp built, in the driver's encoding, and the body lines Py2Cpp emitted (indentation dropped)"""
+	module = tr.app.module(source)
+	text = tr.py2cpp.transpile(module.entrypoint)
+	fn = [n for n in module.entrypoint.statements if type(n).__name__ == 'Function'][0]
+	rn = RealNodes(tr)
+	for pname in ('a', 'b', 'c'):
+		rn.ids.setdefault(pname, len(rn.ids) + 1)
+
+	def enc_block(stmts: list[Any]) -> str:
+		return ' '.join([f'B {len(stmts)}'] + [enc_stmt(x) for x in stmts])
+
+	def enc_stmt(x: Any) -> str:
+		kind = type(x).__name__
+		if kind == 'MoveAssign':
+			name = x.receivers[0].tokens
+			ty = tr.py2cpp.to_accessible_name(rn.reflections.type_of(x.value))
+			return f'A {rn.ids.setdefault(name, len(rn.ids) + 1)} {hx(name)} {hx(ty)} {rn.enc(x.value)}'
+		if kind == 'Return':
+			return f'R {rn.enc(x.return_value)}'
+		if kind == 'While':
+			return f'W {rn.enc(x.condition)} {enc_block(x.statements)}'
+		if kind == 'If':
+			arms = [(x.condition, x.statements)] + [(e.condition, e.statements) for e in x.else_ifs]
+			has_else = type(x.else_clause).__name__ == 'Else'
+			return ' '.join([f'I {len(arms)}'] + [f'{rn.enc(c)} {enc_block(b)}' for c, b in arms]
+				+ ['1' if has_else else '0', enc_block(x.else_clause.statements if has_else else [])])
+		raise ValueError(f'statement {kind} outside the core')
+
+	enc = enc_block(fn.statements)
+	lines = text.split('\n')
+	start = next(i for i, ln in enumerate(lines) if re.match(r'int f\(int a, int b, int c\) \{$', ln))
+	end = max(i for i, ln in enumerate(lines) if ln == '}')
+	texts = {i: t for t, i in rn.ids.items()}
+	return enc, [ln.strip() for ln in lines[start + 1:end]], texts, rn
+
+
+def stream_stmt(ctx: Ctx) -> Stream:
+	"""ties Model.EmitStmt to the real code: (1) `emitLines typeOf (annotate params body)` = the body lines Py2Cpp emits for the
+	statement tree tranp built (which assignment declares = VarsCollector; statement templates); (2) `pyExec` = CPython running
+	the source; (3) `cExec` = g++ -std=c++20 -fsanitize=undefined running the real emitted function."""
+	import subprocess
+	from concurrent.futures import ThreadPoolExecutor
+	rng = ctx.sub_rng('stmt')
+	tr = cxx.Transpiler(ctx.tmpdir())
+	fuel = 400
+	progs = []
+	shape: Counter[str] = Counter()
+	for _ in range(ctx.scale(80, 500)):
+		g = StmtGen(rng)
+		progs.append(g.program())
+		shape.update(g.shape)
+	pre: list[dict[str, Any]] = []
+	for source in progs:
+		small = rng.random() < 0.7
+		args = [rng.randint(0, 9) if small else rng.choice([0, 1, -1, 7, -8, 31, 33, 1000, -65536, 2 ** 30, -(2 ** 31), 2 ** 31 - 1]) for _ in range(3)]
+		d: dict[str, Any] = {'source': source, 'args': args}
+		try:
+			enc, real_lines, texts, _ = stmt_encode(tr, source)
+			d.update(enc=enc, lines=real_lines)
+			lits = ' '.join(f'{i}:i{t}' for i, t in texts.items() if re.fullmatch(r'[0-9]+', t))
+			d['run'] = f"{' '.join(f'{i + 1}={v}' for i, v in enumerate(args))}\t{lits}\t{fuel}\t{enc}"
+		except Exception as e:  # noqa: BLE001 - a rejection of a valid core program is a disagreement with the (total) model
+			d['exception'] = f'real-code exception {common.exc_enum(e)}: {str(e)[:200]}'
+		pre.append(d)
+	runnable = [d for d in pre if 'run' in d]
+	model_py = common.lean_driver('emit', [f"stmtpy\t{d['run']}" for d in runnable])
+	model_cpp = common.lean_driver('emit', [f"stmtcpp\t{d['run']}" for d in runnable])
+	# CPython (only where the model claims an in-subset run: outside it `1000 << 2 ** 30` is not something to execute; an alarm bounds the rest)
+	import signal
+
+	def on_alarm(signum: int, frame: Any) -> None:
+		raise TimeoutError('generated core program ran for more than 10 s')
+
+	old_handler = signal.signal(signal.SIGALRM, on_alarm)
+	try:
+		for d, mp in zip(runnable, model_py):
+			d['model_py'] = mp
+			if mp.endswith('py=out'):
+				d['py'] = 'n/a'
+				continue
+			env: dict[str, Any] = {}
+			try:
+				signal.alarm(10)
+				exec(compile(d['source'], '<stmt>', 'exec'), env)  # noqa: S102 - generated core program (ints only, bounded loops)
+				r = env['f'](*d['args'])
+				d['py'] = 'end' if r is None else f'ret {int(r)}'
+			except Exception as e:  # noqa: BLE001
+				d['py'] = f'raised {type(e).__name__}'
+			finally:
+				signal.alarm(0)
+	finally:
+		signal.signal(signal.SIGALRM, old_handler)
+	# g++ on the real emitted functions whose model reading is defined
+	work = ctx.tmpdir('tranp-verif-stmt-')
+	gxx = [(k, d) for k, (d, mc) in enumerate(zip(runnable, model_cpp)) if mc.startswith('cpp=ret')]
+	src = ['#include <cstdio>', '#include <cstdlib>']
+	for k, d in gxx:
+		src.append(f'static int f{k}(int a, int b, int c) {{\n' + '\n'.join(d['lines']) + '\n}')
+	src.append('int main(int argc, char** argv) { int k = atoi(argv[1]); switch (k) {')
+	for k, d in gxx:
+		src.append(f"\tcase {k}: printf(\"%d\\n\", f{k}({', '.join(str(v) for v in d['args'])})); break;")
+	src.append('} return 0; }')
+	path = os.path.join(work, 'stmt.cpp')
+	with open(path, 'w', encoding='utf-8') as f:
+		f.write('\n'.join(src).replace('-2147483648', '(-2147483647 - 1)') + '\n')
+	p = subprocess.run(['g++', '-std=c++20', '-O0', '-w', '-fsanitize=undefined', '-fno-sanitize-recover=undefined', path, '-o', path[:-4]], capture_output=True, text=True, timeout=900)
+
+	def run_one(k: int) -> str:
+		if p.returncode != 0:
+			return 'g++ rejects the unit of emitted functions: ' + p.stderr[-300:].replace('\n', ' ').replace('\t', ' ')
+		r = subprocess.run([path[:-4], str(k)], capture_output=True, text=True, timeout=20)
+		return f'cpp=ret {r.stdout.strip()}' if r.returncode == 0 and r.stdout.strip() else 'cpp=ub'
+
+	with ThreadPoolExecutor(16) as ex:
+		cpp_real = dict(zip([k for k, _ in gxx], ex.map(run_one, [k for k, _ in gxx])))
+	cases = []
+	skipped_out = 0
+	for d in pre:
+		desc = {'source': d['source'], 'args': d['args']}
+		if 'exception' in d:
+			cases.append((desc, ['stmtemit\t1 2 3\tB 0'], [d['exception']]))
+			continue
+		ops = [f"stmtemit\t1 2 3\t{d['enc']}"]
+		real = ['ok ' + '|'.join(hx(ln) for ln in d['lines'])]
+		desc.update(py=d['py'], model_py=d['model_py'])
+		if d['model_py'].endswith('py=out'):
+			skipped_out += 1   # outside the agreement subset (32-bit range, % operands, shift range): no claim
+		else:
+			ops.append(f"stmtpy\t{d['run']}")
+			real.append(f"scope=true py={d['py']}")
+		cases.append((desc, ops, real))
+	for k, d in gxx:
+		cases.append(({'source': d['source'], 'args': d['args'], 'emitted': d['lines']}, [f"stmtcpp\t{d['run']}"], [cpp_real[k]]))
+	st = common.correspond('stmt', cases, 'emit', classify=lambda d: 'cpp-run' if 'emitted' in d else ('py:' + d.get('model_py', 'exception').split('py=')[-1][:3]))
+	st.histogram.update({f'gen:{k}': v for k, v in shape.items()})
+	st.histogram['py-outside-subset-skipped'] = skipped_out
+	st.histogram['cpp-run'] = len(gxx)
+	st.note = ('generated core programs (assign / return / if-elif-else / bounded while over int/bool operator expressions; reads visible in the C++ block structure; '
+		'targets: visible, fresh, re-declared after a closed block, parameters) through the real App/Py2Cpp: the statement tree tranp built is serialised (declared type '
+		'from Reflections.type_of/to_accessible_name) and the model must reproduce the emitted body lines exactly (stmtemit), CPython\'s result (stmtpy, scopeOK = true) '
+		'and g++ -fsanitize=undefined running the real emitted function (stmtcpp)')
 	return st
 
 
@@ -722,10 +1009,19 @@ STATEMENTS = {
 	'ops_total': 'for every ladder operator, operand-type pair and dict flag a branch of the translated binary_operator.j2 / binary_in.j2 is selected and mentions both operands; unary/ternary/group likewise (decide over generated tables)',
 	'emitter_table_agrees': 'CppOperatorPrecedences (translated from py2cpp.py) gives every core infix operator the level of its C++ symbol in cppTable (+1), and `!` the unary value above all of them',
 	'group': 'group_statement proved: for every grammar-producible operator node of the core without a comparison chain, C++ lexing merges no emitted tokens, Prec.parse cppTable parses them, and the tree is Python\'s grouping up to the parentheses the guards added (by construction: is_regrouped_operand / on_factor / on_not_compare)',
-	'group_full_counterexample': 'without the explicit exclusion the sentence is false: a < b < c (known finding chain-compare; corpus/C01/f2-chain-compare.json on the real code)',
+	'group_chain_counterexample': 'without the explicit exclusion the sentence is false: a < b < c (known finding chain-compare; corpus/C01/f2-chain-compare.json on the real code)',
+	'group_full': 'group for EVERY operator node (coreW: also ternary, in / not in over list and dict, float % -> fmod) except comparison chains: the emitted tokens (fuse-free under C++ maximal munch) are parsed by the wrapper grammar (conditional-expression over Prec.parse cppTable over postfix primaries with member/call suffixes; parseX, unique) into a tree in normal form that equals Python\'s grouping up to the added parentheses',
+	'group_full_chain_counterexample': 'the same counterexample for the full sentence (a < b < c)',
 	'flat_iff': 'the unguarded flat text (emitter before 0598c93) is re-parsed into Python\'s tree iff no parent/child slot is in badPairs (60 slots computed from the two tables): why the guards are needed',
 	'sem': 'inside the agreement subset (32-bit ints, % on non-negative/positive operands, no /, shifts 0..31, bools under and/or/not, no comparison chain) the C++ value of the tree with Python\'s grouping equals the Python value, without UB',
 	'agree': 'group + sem: for chain-free core nodes and in-subset evaluations the emitted token text, as C++ parses it, evaluates to the Python value',
+	'sem_full': 'sem with floats abstract (FOps F, only law: floor-% = fmod on non-negative dividend / positive divisor): int->float promotion in mixed arithmetic and comparisons, / with a float operand, the fmod branch of the % template, ternary; at every % the emitter\'s type tags must describe the operand values (else tagMismatch: finding fmod:left-type)',
+	'agree_full': 'group_full + sem_full: the emitted tokens, parsed by the wrapper grammar, evaluate in C++ (usual arithmetic conversions, fmod call, ?:, short-circuit) to the Python value for every in-subset evaluation',
+	'toyOps_law': 'non-vacuity of the float hypotheses (an interpretation satisfying ModLaw) + an example through agree_full',
+	'fmod_left_type_counterexample': 'x % a % b with float x: the emitted text is fmod(x, a) % b, ill-formed in C++ for every float x (the tag check of sem_full is not vacuous; finding fmod:left-type)',
+	'stmt_decl': 'the model of VarsCollector (one pass, `_merged`: same or enclosing scope) marks as declarations exactly the assignments whose name is not declared in an open C++ block at that point (proved equal to the scoped reading annotV)',
+	'stmt_agree': 'statements core (v = e, return e, if/elif/else, while over the operator core, 32-bit ints/bools): if every read is visible in the C++ block structure (scopeOK) and the Python run (one function-level store) is InSubset and returns r, the C++ reading of the emitted statements (declaration at the first assignment per scope chain, block frames pushed/popped at braces, emitted expression tokens parsed by cppTable) returns r with the same fuel',
+	'stmt_scope_counterexample': 'scopeOK is not vacuous: `if a > 0: v = 1 else: v = 2; return v` is valid Python (returns 1) but the statements the collector logic yields read an undeclared v (the real emitter rejects: finding reject:block-scoped-name)',
 }
 
 
@@ -742,7 +1038,7 @@ def run(ctx: Ctx) -> int:
 	if proof.built:
 		with ctx.timed('correspondence'):
 			st = stream_emit(ctx)
-			streams = [st, stream_cpptable(ctx, st.raw_cases), stream_sem(ctx, st.raw_cases)]  # type: ignore[attr-defined]
+			streams = [st, stream_cpptable(ctx, st.raw_cases), stream_sem(ctx, st.raw_cases), stream_stmt(ctx)]  # type: ignore[attr-defined]
 			del st.raw_cases  # type: ignore[attr-defined]
 	with ctx.timed('search'):
 		pl = cxx.Pipeline(ctx)
@@ -752,20 +1048,25 @@ def run(ctx: Ctx) -> int:
 			pl.close()
 	return common.finish(ctx, proof, streams, searches, statements=STATEMENTS, translate_ok=translate_ok, translate_msg=translate_msg,
 		partial={
-			'proved': 'operator core: emitted tokens re-parsed by the C++ table = Python grouping for every chain-free node (group, by construction of the guards), '
-				'the emitter\'s precedence table agrees with the C++ grammar table, operator semantics agree inside the subset (sem, agree), template/ladder totality (ops_total, ladder_eq)',
-			'correspondence_only': 'Model.Emit = real Py2Cpp on operator nodes (stream emit: exact text, tokens, wf, CPython grouping); cppTable = g++\'s grammar (stream cpptable)',
-			'search_only': 'statements, functions, classes, containers, comprehensions, strings, casts, exceptions, acceptance by g++ -std=c++20, never-rejected: generated programs vs CPython',
-			'false_on_current_tree': 'the grouping sentence for comparison chains (group_full_counterexample; known finding chain-compare)',
+			'proved': 'operator level: emitted tokens re-parsed by the C++ grammar (Prec table + wrapper grammar for ?:, calls, members) = Python grouping for every chain-free operator node incl. ternary, in / not in, fmod (group, group_full); '
+				'the emitter\'s precedence table agrees with the C++ grammar table; operator semantics agree inside the subset on ints, bools and abstract floats (sem, agree, sem_full, agree_full); template/ladder totality (ops_total, ladder_eq). '
+				'statement level: which assignment declares (stmt_decl) and agreement of assign / return / if-elif-else / while programs over the operator core on ints/bools under the visibility condition (stmt_agree)',
+			'correspondence_only': 'Model.Emit = real Py2Cpp on operator nodes (stream emit: exact text, tokens, wf, CPython grouping); cppTable and the wrapper grammar = g++\'s grammar (stream cpptable; by value in stream sem); '
+				'pyEval / cEvalX = CPython / g++ on ints, bools, floats (stream sem); Model.EmitStmt = real Py2Cpp body lines, CPython and g++ on generated core programs (stream stmt)',
+			'search_only': 'for loops, break/continue, functions/closures/default args, classes, enums, containers, comprehensions, strings, casts, exceptions, augmented/destructuring assignment, float and bool variables in statements, '
+				'acceptance by g++ -std=c++20, never-rejected: generated programs vs CPython',
+			'false_on_current_tree': 'the grouping sentence for comparison chains (group_chain_counterexample; known finding chain-compare); the % template on float chains (fmod_left_type_counterexample; finding fmod:left-type); '
+				'never-rejected for names first assigned in a nested block and read after it (stmt_scope_counterexample; finding reject:block-scoped-name)',
 		},
 		assumptions=[
 			'an atom is any primary; its text is whatever its own handler rendered (leaf handlers are outside the model)',
-			'the domain name of each chain element is the one Reflections.type_of/to_domain_name gave (type inference is C03\'s subject)',
-			'ternary, in / not in, <> and float % are emitted by the model (stream emit) but excluded from the grouping theorems (`core`); ternary operands are or_tests and `?:` binds loosest in C++',
-			'floats are not modelled in `sem`; the search restricts floats to values exactly representable in binary32',
+			'the domain name of each chain element and the declared type of each assignment are the ones Reflections.type_of / to_domain_name / to_accessible_name gave (type inference is C03\'s subject)',
+			'`in` / `not in` are grouped (call form = a postfix primary) but their C++ value needs containers: Err.unsupported in cEvalX, search only',
+			'floats are abstract in sem_full (no IEEE claim; both languages read over the same F; tranp maps float to C++ float: the search restricts floats to values exactly representable in binary32, stream sem uses double on both sides)',
+			'statements core: variables hold ints; the statement templates (assign/move_assign*.j2, flow/if/*.j2, flow/while.j2, statement/return.j2) are transcribed by hand in emitLines and tied by stream stmt, not translated; loops carry fuel (no claim about non-termination)',
 		],
-		trusted=['cppTable: ISO C++20 expression grammar transcribed (validated against g++ by stream cpptable)',
-			'denotePy / denoteCpp: transcriptions of the two language definitions for int/bool operators',
+		trusted=['cppTable + the wrapper grammar (conditional-expression, postfix call/member): ISO C++20 expression grammar transcribed (validated against g++ by streams cpptable and sem)',
+			'denotePy / denoteCpp, pyEval / cEvalX, pyExec / cExec: transcriptions of the two language definitions for int/bool/float operators and the statements core (validated against CPython and g++ -fsanitize=undefined by streams sem and stmt)',
 			'g++ 12 -std=c++20 as the C++ oracle of the search; std::format shimmed in the driver prelude (g++ 12 has no <format>)'])
 
 
